@@ -199,6 +199,83 @@ func (fr *Frame) locInvoke(recv IfaceV, rt types.Type, m *types.Func, args []Val
 			st.reach.S, rk, ns.Len.S, xr, nd[0].S, rk, xr, nd[1].S, rk, xr, nd[2].S, qa, qb, n, rr, qa, qb, n, xr, qa, qb, n, rr, qa, qb, n))
 		c.note("wrapper-level MustReshape contract: defined for reshapes that drop leading unit axes or keep the shape (all reshapes in the generated wrappers); other reshapes leave the index map unspecified")
 		return []Val{r}
+	case "Apply":
+		// Apply(loc, dim, step, vals): element loc + j*step*e_dim = vals[j]
+		loc := args[0].(SliceV)
+		dim, ok1 := litInt(args[1].(T))
+		stp, ok2 := litInt(args[2].(T))
+		vals := args[3].(SliceV)
+		if !ok1 || !ok2 || stp != 1 || dim < 0 || dim > 2 {
+			panic(vcErr("ND method Apply is modelled at wrapper level for a literal axis and unit step only"))
+		}
+		var lo, ext [3]T
+		for k := int64(0); k < 3; k++ {
+			lo[k] = c.def("al", c.vecElem(st, loc, k, zero))
+			ext[k] = intLit(1)
+		}
+		ext[dim] = vals.Len
+		c.oblige(st, "pre@call", "C04.apply-rank", []string{"C04", "C17"}, eq(loc.Len, c.ndRank(recv)), pos, "Apply: the location has one entry per axis")
+		hv := c.heap(st, "H."+string(vals.Elem), heapSort(vals.Elem))
+		varr := c.sel(hv, vals.ID)
+		fr.locBulkWrite(st, recv, lo, ext, func(a [3]string) string {
+			return fmt.Sprintf("(select %s (+ %s (- %s %s)))", varr.S, vals.Off.S, a[dim], lo[dim].S)
+		}, pos, "Apply")
+		return nil
+	case "ApplySlice", "CopyFrom":
+		// ApplySlice(loc, step, vals): element loc + v*step = vals[v] for every index v of vals
+		var loc, step SliceV
+		var src IfaceV
+		if name == "CopyFrom" {
+			src = args[0].(IfaceV)
+			loc = SliceV{zero, zero, zero, SInt, types.Typ[types.Int]}
+			step = loc
+		} else {
+			loc = args[0].(SliceV)
+			step = args[1].(SliceV)
+			src = args[2].(IfaceV)
+			c.oblige(st, "pre@call", "C04.apply-rank", []string{"C04", "C17"}, eq(loc.Len, c.ndRank(recv)), pos, "ApplySlice: the location has one entry per axis")
+		}
+		src.Typ = rt
+		c.oblige(st, "nil", "", nil, app(SBool, ">", src.Ref, zero), pos, "source array of "+name+" is not nil")
+		c.oblige(st, "pre@call", "C04.apply-rank", []string{"C04", "C17"}, eq(c.ndRank(src), c.ndRank(recv)), pos, name+": source and destination have the same rank")
+		c.oblige(st, "pre@call", "C04.apply-no-overlap", []string{"C04", "C17"}, not(eq(c.ndRoot(src), c.ndRoot(recv))), pos, name+": source and destination do not share storage")
+		var lo, ext [3]T
+		one := intLit(1)
+		for k := int64(0); k < 3; k++ {
+			lo[k] = c.def("al", c.vecElem(st, loc, k, zero))
+			inr := app(SBool, "<", intLit(k), c.ndRank(src))
+			ext[k] = c.def("ae", ite(inr, c.ndDim(src, intLit(k)), one))
+			sk := c.def("as", ite(eq(step.ID, zero), one, c.vecElem(st, step, k, one)))
+			// a step other than 1 is only modelled on axes of extent 1 (where it is irrelevant)
+			c.oblige(st, "pre@call", "C04.apply-step", []string{"C04", "C17"}, implies(inr, or(eq(sk, one), eq(ext[k], one))), pos,
+				fmt.Sprintf("%s: axis %d has unit step or a single element", name, k))
+		}
+		name2, ks := c.locHeapName(src)
+		hs := c.heap(st, name2, heapSort(ks))
+		sarr := c.sel(hs, c.ndRoot(src))
+		fr.locBulkWrite(st, recv, lo, ext, func(a [3]string) string {
+			return fmt.Sprintf("(select %s (nd_idx %s (- %s %s) (- %s %s) (- %s %s)))", sarr.S, src.Ref.S, a[0], lo[0].S, a[1], lo[1].S, a[2], lo[2].S)
+		}, pos, name)
+		return nil
+	case "Unroll":
+		c.oblige(st, "pre@call", "C04.unroll-rank1", []string{"C04", "C17"}, eq(c.ndRank(recv), intLit(1)), pos, "Unroll is modelled at wrapper level for rank-1 views")
+		nameH, k := c.locHeapName(recv)
+		h := c.heap(st, nameH, heapSort(k))
+		id := c.newID(st)
+		arr := c.fresh("unr", arrSort(k))
+		c.nsym++
+		q := fmt.Sprintf("q_k_%d", c.nsym)
+		c.emit(fmt.Sprintf("(assert (=> %s (forall ((%s Int)) (! (= (select %s %s) (select %s (nd_idx %s %s 0 0))) :pattern ((select %s %s))))))",
+			st.reach.S, q, arr.S, q, c.sel(h, c.ndRoot(recv)).S, recv.Ref.S, q, arr.S, q))
+		hn := "H." + string(k)
+		hh := c.heap(st, hn, heapSort(k))
+		c.setHeap(st, hn, c.def("H", c.sto(hh, id, arr)), &id)
+		c.note("wrapper-level Unroll contract: the result holds the view's elements in order; whether it aliases the view's own cells (contiguous Go arrays) is not modelled: writes through it land in the view's own cells (A-UNROLL-ALIAS)")
+		et := types.Type(types.Typ[types.Float64])
+		if sl, ok := sig.Results().At(0).Type().Underlying().(*types.Slice); ok {
+			et = sl.Elem()
+		}
+		return []Val{SliceV{id, zero, c.ndDim(recv, zero), k, et}}
 	case "Get1":
 		a := args[0].(T)
 		c.oblige(st, "pre@call", "C04.get1-in-range", []string{"C04"}, and(eq(c.ndRank(recv), intLit(1)), inRange(a, 0)), pos, "Get1 on a rank-1 view with an index in range")
@@ -239,6 +316,20 @@ func (fr *Frame) locKernelCall(callee *ssa.Function, kfc *FuncContract, args []V
 		names = kfc.Params
 	}
 	zero := intLit(0)
+	kenv := &Env{c: c, fr: fr, st: st, names: map[string]Val{}}
+	for i, n := range names {
+		if i < len(args) {
+			kenv.names[n] = args[i]
+		}
+	}
+	pre := st.clone()
+	// slices the kernel updates in place
+	for _, a := range kfc.Assigns {
+		a = strings.TrimSpace(a)
+		if strings.HasSuffix(a, "[*]") {
+			fr.havocTarget(kenv, st, a)
+		}
+	}
 	for i, p := range callee.Params {
 		x, ok := args[i].(IfaceV)
 		if !ok || !isNDIface(p.Type()) {
@@ -293,8 +384,26 @@ func (fr *Frame) locKernelCall(callee *ssa.Function, kfc *FuncContract, args []V
 	}
 	var out []Val
 	rs := callee.Signature.Results()
+	post := &Env{c: c, fr: fr, st: st, old: pre, names: copyMap(kenv.names), oldNames: kenv.names}
 	for i := 0; i < rs.Len(); i++ {
-		out = append(out, c.freshVal(st, "k_"+callee.Name(), rs.At(i).Type()))
+		v := c.freshVal(st, "k_"+callee.Name(), rs.At(i).Type())
+		out = append(out, v)
+		if i < len(kfc.Results) {
+			post.names[kfc.Results[i]] = v
+		}
+		post.names[fmt.Sprintf("r%d", i)] = v
+		if rs.Len() == 1 {
+			post.names["result"] = v
+		}
+	}
+	// the kernel's proved postconditions about plain values (lengths of returned
+	// buffers and the like) are available to the wrapper; those about array
+	// contents are not needed here (C04 composes them with C14)
+	for _, cl := range kfc.Clauses {
+		if cl.Kind != "ensures" || !strings.Contains(cl.Label, "shape") {
+			continue
+		}
+		c.assume(st.reach, c.evalBool(post, cl.Expr))
 	}
 	return out
 }
@@ -343,4 +452,72 @@ func (c *Ctx) rootInjective(x IfaceV) T {
 		x.Ref.S, v("a"), v("b"), v("c"), x.Ref.S, v("d"), v("e"), v("f"),
 		v("a"), v("d"), v("b"), v("e"), v("c"), v("f"),
 		x.Ref.S, v("a"), v("b"), v("c"), x.Ref.S, v("d"), v("e"), v("f")), SBool}
+}
+
+func litInt(t T) (int64, bool) {
+	var n int64
+	if _, err := fmt.Sscanf(t.S, "%d", &n); err == nil && fmt.Sprint(n) == t.S {
+		return n, true
+	}
+	return 0, false
+}
+
+// locBulkWrite: every element (A,B,C) of x with lo <= (A,B,C) < lo+ext receives
+// val(A,B,C); all other cells of the root keep their contents. Obligations: the
+// box lies inside x, its cells are pairwise distinct, and it is within the
+// cells this call may write.
+func (fr *Frame) locBulkWrite(st *State, x IfaceV, lo, ext [3]T, val func(a [3]string) string, pos token.Pos, what string) {
+	c := fr.c
+	name, k := c.locHeapName(x)
+	h := c.heap(st, name, heapSort(k))
+	root := c.ndRoot(x)
+	c.nsym++
+	n := c.nsym
+	v := [3]string{fmt.Sprintf("q_A_%d", n), fmt.Sprintf("q_B_%d", n), fmt.Sprintf("q_C_%d", n)}
+	w := [3]string{fmt.Sprintf("q_D_%d", n), fmt.Sprintf("q_E_%d", n), fmt.Sprintf("q_F_%d", n)}
+	box := func(a [3]string) string {
+		s := "(and"
+		for i := 0; i < 3; i++ {
+			s += fmt.Sprintf(" (<= %s %s) (< %s (+ %s %s))", lo[i].S, a[i], a[i], lo[i].S, ext[i].S)
+		}
+		return s + ")"
+	}
+	zero := intLit(0)
+	for i := int64(0); i < 3; i++ {
+		inr := app(SBool, "<", intLit(i), c.ndRank(x))
+		c.oblige(st, "pre@call", "C04.bulk-in-bounds", []string{"C04", "C17"}, and(app(SBool, ">=", ext[i], zero),
+			implies(inr, and(app(SBool, "<=", zero, lo[i]), app(SBool, "<=", addInt(lo[i], ext[i]), c.ndDim(x, intLit(i))))),
+			implies(not(inr), and(eq(lo[i], zero), eq(ext[i], intLit(1))))), pos, fmt.Sprintf("%s: axis %d of the written block lies inside the array", what, i))
+	}
+	cell := func(a [3]string) string { return fmt.Sprintf("(nd_idx %s %s %s %s)", x.Ref.S, a[0], a[1], a[2]) }
+	inj := T{fmt.Sprintf("(forall ((%s Int) (%s Int) (%s Int) (%s Int) (%s Int) (%s Int)) (! (=> (and %s %s (= %s %s)) (and (= %s %s) (= %s %s) (= %s %s))) :pattern (%s %s)))",
+		v[0], v[1], v[2], w[0], w[1], w[2], box(v), box(w), cell(v), cell(w), v[0], w[0], v[1], w[1], v[2], w[2], cell(v), cell(w)), SBool}
+	c.oblige(st, "pre@call", "C04.bulk-distinct-cells", []string{"C04", "C17"}, inj, pos, what+": the elements of the written block are distinct cells")
+	if c.fc != nil && c.specMode == 0 {
+		var alts []T
+		for _, cl := range c.fc.Clauses {
+			if cl.Kind != "writes" {
+				continue
+			}
+			env := fr.envAt(fr.curBlock, st, nil)
+			env.atLatch = true
+			env.bound = map[string]Val{"wroot": root, "widx": T{cell(v), SInt}}
+			c.inQuant++
+			alts = append(alts, c.evalBool(env, cl.Expr))
+			c.inQuant--
+		}
+		if len(alts) > 0 {
+			g := T{fmt.Sprintf("(forall ((%s Int) (%s Int) (%s Int)) (=> %s %s))", v[0], v[1], v[2], box(v), or(alts...).S), SBool}
+			c.oblige(st, "frame", "C04.frame", []string{"C04", "C05"}, g, pos, what+": the written block stays within the cells this call may write")
+		}
+	}
+	na := c.fresh("LOCb", arrSort(k))
+	oldA := c.sel(h, root)
+	c.emit(fmt.Sprintf("(assert (=> %s (forall ((%s Int) (%s Int) (%s Int)) (! (=> %s (= (select %s %s) %s)) :pattern (%s)))))",
+		st.reach.S, v[0], v[1], v[2], box(v), na.S, cell(v), val(v), cell(v)))
+	qp := fmt.Sprintf("q_p_%d", n)
+	c.emit(fmt.Sprintf("(assert (=> %s (forall ((%s Int)) (! (=> (forall ((%s Int) (%s Int) (%s Int)) (=> %s (not (= %s %s)))) (= (select %s %s) (select %s %s))) :pattern ((select %s %s))))))",
+		st.reach.S, qp, v[0], v[1], v[2], box(v), qp, cell(v), na.S, qp, oldA.S, qp, na.S, qp))
+	st.heaps[name] = c.def("LOC", c.sto(h, root, na))
+	c.writeLog = append(c.writeLog, writeRec{heap: name, key: nil, sort: heapSort(k)})
 }
